@@ -533,3 +533,23 @@ package table
 //@   at-call bgp.NewPathAttributeAs4Path(as4Params) requires mkAs4
 //@   at-return requires asAttr != nil && !mkAs4 ==> len(msg.PathAttributes) == len(ps)
 //@   at-return requires asAttr != nil && mkAs4 ==> len(msg.PathAttributes) == len(ps) + 1
+
+// =============================================================================================
+// C12 - graceful restart: what the Adj-RIB-In sweep at End-of-RIB / timer expiry withdraws
+// =============================================================================================
+//@ props C12
+//@ func (*Path).IsStale
+//@   pure
+//@   spec-only
+//@ func (*Path).SetDropped
+//@   requires path != nil
+//@   modifies path.dropped
+// from C12: "Stale routes disappear exactly when ...": per destination, DropStale's callback turns EVERY stale path
+// into a dropped withdrawal (one list entry per stale path, none for a fresh one) and always scans the whole list
+//@ func (*AdjRib).DropStale$1
+//@   requires d != nil
+//@   claims step at-call at-return
+//@   at-call ^p.Clone( requires p.IsStale() && arg1
+//@   loop 0 step len(pathList) == header(len(pathList)) + (called(Clone) ? 1 : 0)
+//@   loop 0 step p.IsStale() ==> called(Clone)
+//@   at-return requires !ret0 && __iter + 1 >= len(d.knownPathList)
